@@ -79,12 +79,13 @@ func Layout(p string) (entries []Entry, size int64, combined bool, ok bool) {
 // when fewer than one prefix remains) meets member k of a combined file:
 //
 //	split   – the member's 38-byte prefix is cut by a buffer refill
-//	extend  – the member's first 20 KiB (or all of it) is not completely inside the
-//	          buffer that holds its prefix, so more bytes must be read
+//	extend  – the first hdrLen bytes of the member (its header) are not completely
+//	          inside the buffer that holds its prefix, so the header itself is cut by
+//	          the buffer end and more bytes must be read
 //	refills – number of refills before the member is reached
 //
 // It is used for labelling generated cases only, never as an oracle.
-func ScanClass(entries []Entry, size int64, k int) (split, extend bool, refills int) {
+func ScanClass(entries []Entry, size int64, k int, hdrLen int64) (split, extend bool, refills int) {
 	const B = HeaderBufferLen
 	pos := min(int64(B), size) // file position (bytes consumed from the file)
 	n := pos                   // valid bytes in buffer
@@ -92,7 +93,7 @@ func ScanClass(entries []Entry, size int64, k int) (split, extend bool, refills 
 	for i := range entries {
 		l := entries[i].Len
 		if i == k {
-			sz := min(offset+l, offset+B)
+			sz := min(offset+l, offset+hdrLen)
 			return split, n < sz, refills
 		}
 		offset += l
